@@ -10,9 +10,22 @@
   reply: {"steps": [ per op: {"<key>": {"stored": s, "entries": [s,…]}, …} ]}
     — the model's attrs after that op; `entries` = split at ' | ' with the
     model's own `splitBar`, each entry `rstrip`ped.
-  op "attrs_split": {"s": s} → {"entries": [...], "raw": [...]}  (the split alone)
+  op "ndl_chain_meta": a chain of `ndl.ndl` calls WITH the learner model: `ndlChainMetaD`
+    (= `Pyndl.ndlChainMeta`, PyndlProofs/AttrsNdl.lean, the subject of C16
+    `ndl_chain_reports`; equality: PyndlProofs/DriverBridge.lean `ndlChainMetaD_eq`).
+    `number_events` is NOT supplied: it is the count `ndlCall` returns on the events.
+    {"hostname": s, "username": s,
+     "runs": [ {"path": s, "events": [[cues, outcomes], …]  (what the file MEANS, frequencies expanded),
+                "policy": "error"|"dedup"|"keep", "method": "threading"|"openmp", "per_job": n, "per_file": n,
+                "alpha": q, "beta1": q, "beta2": q, "lambda": q        (the numbers the learner gets, "num/den"),
+                "alpha_repr": s, "betas": s, "lambda_repr": s}         (their Python str() forms) ]}
+    reply: {"steps": [ per run: the attrs after the chain up to and including it, as in
+                       attrs_chain, plus "n_events": the count ndlCall returned;
+                       or {"err": "Raised:…"} from the first failing call on ]}
 -/
 import PyndlDriver.Json
+import PyndlDriver.ModelCopies
+import PyndlModel.Generated
 
 open Lean
 
@@ -76,15 +89,44 @@ def opAttrsChain (j : Json) : M Json := do
     | some a => attrsJson a)
   pure (Json.mkObj [("steps", Json.arr steps.toArray)])
 
-def opAttrsSplit (j : Json) : M Json := do
-  let s ← getStr j "s"
-  pure (Json.mkObj [("raw", jStrs ((splitBar (sL s)).map lS)),
-                    ("entries", jStrs ((entries (sL s)).map lS))])
+def asNdlRunD (env : Env) (o : Json) : M (NdlRunD TR) := do
+  let method ← match o.getObjVal? "method" with
+    | .ok (.str "threading") => pure Method.threading
+    | .ok (.str "openmp") => pure Method.openmp
+    | _ => throw "bad method"
+  pure { cfg := { policy := ← getPolicy o "policy", method := method, perJob := getNatD o "per_job" 10,
+                  perFile := getNatD o "per_file" 10000000 }
+         alpha := ← getTR o "alpha", β₁ := ← getTR o "beta1", β₂ := ← getTR o "beta2", lam := ← getTR o "lambda"
+         path := sL (← getStr o "path"), events := ← getEvents o "events"
+         alphaRepr := sL (← getStr o "alpha_repr"), betasRepr := sL (← getStr o "betas")
+         lambdaRepr := sL (← getStr o "lambda_repr"), env := env }
+
+def opNdlChainMeta (j : Json) : M Json := do
+  let host ← getStr j "hostname"
+  let user ← getStr j "username"
+  let env : Env := { date := sL "D", cpuTime := sL "C", wallTime := sL "W", hostname := sL host,
+                     username := sL user, pyndl := sL "V", numpy := sL "V", pandas := sL "V",
+                     xarray := sL "V", cython := sL "V" }
+  let runs ← (← getArr j "runs").toList.mapM (asNdlRunD env)
+  let steps := (List.range runs.length).map (fun n =>
+    match ndlChainMetaD Generated.pyMagic Generated.pyVersion none (runs.take (n + 1)) with
+    | .error e => jErr e
+    | .ok none => Json.null
+    | .ok (some (_, a)) =>
+      -- the count of THIS call alone (for the evidence; the attrs above already contain it)
+      let cnt := match ndlChainMetaD Generated.pyMagic Generated.pyVersion none (runs.take n), runs[n]? with
+        | .ok s, some r =>
+          match ndlCall Generated.pyMagic Generated.pyVersion r.cfg r.alpha r.β₁ r.β₂ r.lam (s.map (·.1)) r.events with
+          | .ok (_, c) => jNat c
+          | .error _ => Json.null
+        | _, _ => Json.null
+      (attrsJson a).setObjVal! "n_events" cnt)
+  pure (Json.mkObj [("steps", Json.arr steps.toArray)])
 
 def handleAttrs? (op : String) (j : Json) : Option (M Json) :=
   match op with
   | "attrs_chain" => some (opAttrsChain j)
-  | "attrs_split" => some (opAttrsSplit j)
+  | "ndl_chain_meta" => some (opNdlChainMeta j)
   | _ => none
 
 end PyndlDriver
